@@ -239,12 +239,24 @@ func (r *Results) normalizeE2eProbe() {
 			}
 		}
 
-		r.E2eProbe.RTT.Avg = totalRTTs / float64(len(validRTTs))
+		// a mean of values in [min, max] can land one rounding error outside of it (e.g. three samples of 0.1)
+		avgRTT := totalRTTs / float64(len(validRTTs))
+		if avgRTT < minRTT {
+			avgRTT = minRTT
+		} else if avgRTT > maxRTT {
+			avgRTT = maxRTT
+		}
+		r.E2eProbe.RTT.Avg = avgRTT
 		r.E2eProbe.RTT.Min = minRTT
 		r.E2eProbe.RTT.Max = maxRTT
-	}
 
-	r.E2eProbe.Jitter = calculateJitter(validRTTs)
+		// same for the mean of the successive differences, which is bounded by the spread
+		jitter := calculateJitter(validRTTs)
+		if jitter > maxRTT-minRTT {
+			jitter = maxRTT - minRTT
+		}
+		r.E2eProbe.Jitter = jitter
+	}
 }
 
 // calculateJitter computes the average jitter from a slice of RTT measurements.
